@@ -288,7 +288,8 @@ def units(tier):
             waits = [e for e in world.log if e[0] == "wait_for"]
             ctx.prove("every-wait-carries-the-documented-timeout", all(w[1] in (tmo_conf, tmo_rx) for w in waits) and len(waits) >= 1)
             if out[0] == "raise":
-                ctx.prove("silent-gateway-fails-with-a-timeout", issubclass(out[1], asyncio.TimeoutError))
+                ctx.prove("silent-gateway-fails-with-a-timeout", issubclass(out[1], asyncio.TimeoutError),
+                          detail="send raised %r at %s" % (out[1:3], out[3] if len(out) > 3 else "?"))
             else:
                 ctx.prove("answer-or-no-answer", out[1] is not None and type_of(out[1]) is C.NumericResponse)
         unit("serial/%s/%s" % (gw, "send-cancelled-at-any-await" if cancel else "send-under-silence"), r_ser)
